@@ -39,7 +39,11 @@ def main(ctx):
                     "MEX preamble is inconsistent", cfg_kw=dict(matlab_safe=True, typedef_same_ns=True),
                     # serializable classes followed by method-less ones; one instantiation under two names
                     extra_streams=[(dict(p_serialize=0.5, max_members=2), 0.3), (dict(p_dup_typedef=0.7, extra_kinds=['cls']), 0.3),
-                                   (dict(matlab_ignore=True, p_template=0.6, unique_ns=True, extra_kinds=['ns', 'ns']), 0.4)])
+                                   (dict(matlab_ignore=True, p_template=0.6, unique_ns=True, extra_kinds=['ns', 'ns']), 0.4),
+                                   # typedefs of FUNCTION templates in an enclosing scope, before the template's namespace (for class templates
+                                   # that placement is the known finding C10-typedef-in-enclosing-scope)
+                                   (dict(typedef_enclosing=0.9, typedef_enclosing_kinds=['func'], p_template=0.9, n_typedefs=4,
+                                         extra_kinds=['ns', 'ns', 'func', 'func', 'func'], max_depth=3), 0.4)])
     for e in ctx.known:
         w = e["witness"]
         st, out = impl_matlab([w["input"]], "mymod", w.get("ignore", []), False)
@@ -47,6 +51,9 @@ def main(ctx):
             still = not (st == "ok" and w["expect_file"] in out)
         elif "bad_file" in w:
             still = st == "ok" and w["bad_file"] in out
+        elif "undeclared_collector" in w:
+            pf = pj.preamble_facts(out, "mymod") if st == "ok" else None
+            still = pf is not None and w["undeclared_collector"] in pf["used"] and w["undeclared_collector"] not in pf["collectors"]
         else:
             still = st != "ok"
         if e.get("kind") == "fixed":
